@@ -296,6 +296,8 @@ pub fn scenarios(quick: bool) -> Vec<Scenario> {
     for b in &buffers {
         // append || flush on the same shard with one buffered update (the window named in the property)
         v.push(Scenario { name: "append_vs_flush".into(), buffer_size: *b, setup: vec![ap(0, 1, 1)], threads: vec![vec![ap(0, 2, 2)], vec![POp::Flush(0)]] });
+        // logical times are drawn before the append: a writer holding an older time may reach the log after a newer one is buffered
+        v.push(Scenario { name: "append_with_older_time_vs_flush".into(), buffer_size: *b, setup: vec![ap(0, 1, 3)], threads: vec![vec![ap(0, 2, 2)], vec![POp::Flush(0)]] });
         v.push(Scenario { name: "append_vs_append_same_shard".into(), buffer_size: *b, setup: vec![], threads: vec![vec![ap(0, 1, 1)], vec![ap(0, 2, 2)]] });
         v.push(Scenario { name: "append_vs_append_other_shard".into(), buffer_size: *b, setup: vec![ap(1, 3, 1)], threads: vec![vec![ap(0, 1, 2)], vec![ap(1, 2, 3)]] });
         v.push(Scenario { name: "append_vs_compact".into(), buffer_size: *b, setup: vec![ap(0, 1, 1), POp::Flush(0), ap(0, 3, 2)], threads: vec![vec![ap(0, 2, 3)], vec![POp::Compact(0)]] });
